@@ -7,7 +7,7 @@
    Write/Grow) is the only operation that drops the consumed prefix; Seek arithmetic is over
    unbounded integers.  StreamOps.v / Buffer.v transcribe the Go code with checked slice
    expressions (an out-of-range slice is the value Panic). *)
-From Got Require Import Base GoSlice Fifo FifoProofs StreamOps StreamOpsProofs.
+From Got Require Import Base GoSlice Fifo FifoProofs StreamOps StreamOpsProofs Buffer BufferProofs.
 Local Open Scope Z_scope.
 
 (* ------------------------------------------------------------------ abstract FIFO *)
@@ -42,10 +42,7 @@ Theorem c13_stm_no_panic :
   forall ops, exists s rs,
     stm_run StmFixed stm_init ops = Ok (s, rs) /\ length rs = length ops /\
     stm_bytes s = Ok (stm_unread s).
-Proof.
-  intros ops. destruct (stm_run_total ops stm_init stm_inv_init) as (s & rs & H1 & H2 & H3).
-  exists s, rs. split; [exact H1|]. split; [exact H3|]. exact (stm_bytes_ok s H2).
-Qed.
+Proof. exact stm_no_panic. Qed.
 Print Assumptions c13_stm_no_panic.
 
 (* ... and the per-op trace that the correspondence check compares with the real code
@@ -150,6 +147,155 @@ Theorem c13_stream_seek_orig_refuted :
     stm_bytes s = Panic /\ stm_step StmOrig s (SRead 1%nat) = Panic /\ stm_step StmOrig s STidy = Panic.
 Proof. exact stm_seek_orig_refuted. Qed.
 Print Assumptions c13_stream_seek_orig_refuted.
+
+(* ------------------------------------------------------------------ iox.Buffer *)
+(* Hypothesis of the run-level theorems, [buf_ops_ok ops]: Next/Grow sizes are non-negative
+   (the property's own quantifier), Seek offsets are int64, and the total size of all
+   Write/Grow requests is at most 2^59 bytes (keeps grow away from panic(ErrTooLarge):
+   proved via the invariant cap <= max 64 (5 * requested bytes)). *)
+
+Theorem c13_buf_no_panic :
+  forall ops, buf_ops_ok ops ->
+    exists s rs, buf_run buf_init ops = Ok (s, rs) /\ length rs = length ops /\
+                 buf_bytes s = Ok (buf_unread s).
+Proof. exact buf_no_panic. Qed.
+Print Assumptions c13_buf_no_panic.
+
+(* the compared per-op trace has no PANIC entry: every op returns, Bytes()/String() succeed
+   and Seek(0, SeekCurrent) succeeds after every single op *)
+Theorem c13_buf_trace_clean :
+  forall ops, buf_ops_ok ops ->
+    forallb buf_line_clean (buf_trace buf_init ops) = true /\
+    length (buf_trace buf_init ops) = length ops.
+Proof. exact buf_trace_clean. Qed.
+Print Assumptions c13_buf_trace_clean.
+
+Theorem c13_buf_cursor_in_bounds :
+  forall ops s rs, buf_ops_ok ops -> buf_run buf_init ops = Ok (s, rs) ->
+    0 <= b_off s <= buf_len s /\ buf_Len s = Z.of_nat (length (buf_unread s)) /\
+    snd (buf_seek s 0 1) = Some (b_off s).
+Proof. exact buf_cursor_in_bounds. Qed.
+Print Assumptions c13_buf_cursor_in_bounds.
+
+(* every run is a run of the abstract FIFO returning the same data / seek results, with a
+   compaction flag per op (used by Write/Grow only: the capacity logic of grow) *)
+Theorem c13_buf_refines_fifo :
+  forall ops s rs, buf_ops_ok ops -> buf_run buf_init ops = Ok (s, rs) ->
+    exists cs, length cs = length ops /\
+      fifo_run fifo_init (combine cs (map buf_op_abs ops)) = (buf_abs s, map buf_ret_abs rs).
+Proof. exact buf_refines_fifo. Qed.
+Print Assumptions c13_buf_refines_fifo.
+
+Theorem c13_buf_write_appends_unread :
+  forall s p s' r,
+    buf_inv s -> 2 * buf_cap s + Z.of_nat (length p) <= buf_maxint ->
+    buf_step s (BWrite p) = Ok (s', r) ->
+    r = BRWrote (Z.of_nat (length p)) /\ buf_unread s' = buf_unread s ++ p /\
+    (b_buf s' = b_buf s ++ p /\ b_off s' = b_off s \/ b_buf s' = buf_unread s ++ p /\ b_off s' = 0).
+Proof. exact buf_write_appends_unread. Qed.
+Print Assumptions c13_buf_write_appends_unread.
+
+(* Read: first n unread bytes, exactly those consumed, nothing dropped; io.EOF iff the
+   buffer has no unread data and len(p) > 0 *)
+Theorem c13_buf_read_takes_prefix_of_unread :
+  forall s n s' r,
+    buf_inv s -> buf_step s (BRead n) = Ok (s', r) ->
+    r = BRRead (firstn n (buf_unread s)) (match buf_unread s, n with [], S _ => true | _, _ => false end) /\
+    buf_unread s' = skipn n (buf_unread s) /\ b_buf s' = b_buf s.
+Proof. exact buf_read_takes_prefix_of_unread. Qed.
+Print Assumptions c13_buf_read_takes_prefix_of_unread.
+
+Theorem c13_buf_next_takes_prefix_of_unread :
+  forall s n s' r,
+    buf_inv s -> 0 <= n -> buf_step s (BNext n) = Ok (s', r) ->
+    r = BRNext (firstn (Z.to_nat n) (buf_unread s)) /\
+    buf_unread s' = skipn (Z.to_nat n) (buf_unread s) /\ b_buf s' = b_buf s.
+Proof. exact buf_next_takes_prefix_of_unread. Qed.
+Print Assumptions c13_buf_next_takes_prefix_of_unread.
+
+(* compaction never alters the unread portion: Tidy ... *)
+Theorem c13_buf_compaction_preserves_unread_tidy :
+  forall s s' r,
+    buf_inv s -> buf_step s BTidy = Ok (s', r) ->
+    buf_unread s' = buf_unread s /\ b_buf s' = buf_unread s /\ b_off s' = 0 /\ buf_cap s' = buf_cap s.
+Proof. exact buf_tidy_preserves_unread. Qed.
+Print Assumptions c13_buf_compaction_preserves_unread_tidy.
+
+(* ... Grow (which also guarantees room for n more bytes) ... *)
+Theorem c13_buf_compaction_preserves_unread_Grow :
+  forall s n s' r,
+    buf_inv s -> 0 <= n -> 2 * buf_cap s + n <= buf_maxint ->
+    buf_step s (BGrow n) = Ok (s', r) ->
+    buf_unread s' = buf_unread s /\ buf_cap s' - buf_len s' >= n /\
+    (b_buf s' = b_buf s /\ b_off s' = b_off s \/ b_buf s' = buf_unread s /\ b_off s' = 0).
+Proof. exact buf_Grow_preserves_unread. Qed.
+Print Assumptions c13_buf_compaction_preserves_unread_Grow.
+
+(* ... and the internal grow in every branch (reset-if-empty, reslice, make, slide down,
+   reallocate): it returns the write index m with the unread bytes intact in front of it *)
+Theorem c13_buf_compaction_preserves_unread_grow :
+  forall s n,
+    buf_inv s -> 0 <= n -> 2 * buf_cap s + n <= buf_maxint ->
+    exists s' m g,
+      buf_grow s n = Ok (s', m) /\ Z.of_nat (length g) = n /\
+      skipn (Z.to_nat (b_off s')) (b_buf s') = buf_unread s ++ g /\
+      m = Z.of_nat (length (b_buf s')) - n /\ 0 <= b_off s' <= m.
+Proof. exact buf_grow_preserves_unread. Qed.
+Print Assumptions c13_buf_compaction_preserves_unread_grow.
+
+Theorem c13_buf_seek_fail_unchanged :
+  forall s o w s', buf_step s (BSeek o w) = Ok (s', BRSeek None) -> s' = s.
+Proof. exact buf_seek_fail_unchanged. Qed.
+Print Assumptions c13_buf_seek_fail_unchanged.
+
+Theorem c13_buf_seek_ok_within_retained :
+  forall s o w s' t,
+    buf_inv s -> buf_step s (BSeek o w) = Ok (s', BRSeek (Some t)) ->
+    0 <= t <= buf_len s /\ b_buf s' = b_buf s /\ b_off s' = t /\
+    buf_unread s' = skipn (Z.to_nat t) (b_buf s) /\ buf_cap s' = buf_cap s.
+Proof. exact buf_seek_ok_within_retained. Qed.
+Print Assumptions c13_buf_seek_ok_within_retained.
+
+Theorem c13_buf_seek_spec :
+  forall s o w,
+    buf_inv s -> buf_len s < 2 ^ 63 -> - 2 ^ 63 <= o < 2 ^ 63 ->
+    buf_seek s o w =
+      match fifo_seek_target (buf_abs s) o w with
+      | Some t => (buf_set_off s t, Some t)
+      | None => (s, None)
+      end.
+Proof. exact buf_seek_spec. Qed.
+Print Assumptions c13_buf_seek_spec.
+
+Theorem c13_buf_fifo_conservation :
+  forall ops s rs,
+    buf_ops_ok ops -> forallb buf_op_linear ops = true ->
+    buf_run buf_init ops = Ok (s, rs) ->
+    buf_all_reads rs ++ buf_unread s = buf_all_writes ops.
+Proof. exact buf_fifo_conservation. Qed.
+Print Assumptions c13_buf_fifo_conservation.
+
+Theorem c13_buf_unread_is_written :
+  forall ops s rs,
+    buf_ops_ok ops -> buf_run buf_init ops = Ok (s, rs) ->
+    exists d, (d <= length (buf_written [] ops))%nat /\ b_buf s = skipn d (buf_written [] ops) /\
+              buf_unread s = skipn (d + Z.to_nat (b_off s)) (buf_written [] ops).
+Proof. exact buf_unread_is_written. Qed.
+Print Assumptions c13_buf_unread_is_written.
+
+(* non-vacuity (Buffer): a run through make / slide-down / reallocation with seeks *)
+Example c13_nonvacuous_buf :
+  let ops := [BWrite (repeat 7 40); BNext 38; BWrite (repeat 8 30); BSeek 1 1; BRead 2%nat;
+              BGrow 200; BTidy; BSeek 0 2; BSeek 1 2] in
+  buf_ops_ok ops /\
+  exists s rs, buf_run buf_init ops = Ok (s, rs) /\ buf_cap s = 328 /\ b_off s = 29 /\
+               nth 3 rs BRUnit = BRSeek (Some 1) /\ nth 4 rs BRUnit = BRRead [7; 8] false /\
+               nth 8 rs BRUnit = BRSeek None.
+Proof.
+  cbn zeta. split.
+  - split; [repeat constructor; cbn; lia|vm_compute; discriminate].
+  - eexists. eexists. split; [vm_compute; reflexivity|]. repeat split.
+Qed.
 
 (* non-vacuity: a concrete run with a failed seek, a successful seek back into consumed
    data, a Tidy and further reads; the hypotheses of the refinement theorem hold for it *)
